@@ -29,9 +29,9 @@ def mode_flags(mode):
     if mode == 'sym': return base + ['-O0', '-DNDEBUG', '-DHSCALAR_SYM']
     if mode == 'symdbg': return base + ['-O0', '-DHSCALAR_SYM']
     if mode == 'symf': return base + ['-O0', '-DNDEBUG', '-DHSCALAR_SYM', '-DSYM_FLOAT_PROFILE']
-    if mode == 'double': return base + ['-O2', '-DNDEBUG', '-DHSCALAR_DOUBLE']
+    if mode == 'double': return base + ['-O1', '-DNDEBUG', '-DHSCALAR_DOUBLE']
     if mode == 'doubledbg': return base + ['-O1', '-DHSCALAR_DOUBLE']
-    if mode == 'float': return base + ['-O2', '-DNDEBUG', '-DHSCALAR_FLOAT']
+    if mode == 'float': return base + ['-O1', '-DNDEBUG', '-DHSCALAR_FLOAT']
     raise Exception(mode)
 
 def target(src, defs, mode, extra=()):
